@@ -389,6 +389,8 @@ Definition is_comparison (op : binop) : bool :=
 Definition binary_node_type (op : binop) (lt rt : ty) : ty :=
   let exp := if is_comparison op then TBool else lt in
   let t := if is_empty_arr exp && is_plus op then rt else exp in      (* array concatenation e.g. [] + [1 2] *)
+  let t := if is_plus op && is_array_name t && equals t rt then merge_fixed t rt else t in
+                                                                       (* [[1]] + [nums]: Fixed flags of both operands at every level *)
   if is_array_name t && fixed rt then fixed_type t else t.            (* [1] + nums: as rigid as nums *)
 
 (* validateBinaryType: true = no error appended *)
@@ -592,6 +594,13 @@ Fixpoint tc (e : expr) : outcome :=
   | EAssert a t =>                                            (* parseTypeAssertion *)
       bind_node (tc a) (fun an ae =>
         ONode (NLeaf (fixed_type (embed t))) (ae || negb (validate_assert (node_type an) (embed t))))
+  | ELoopVar rng =>                                           (* parseForStatement: forNode.LoopVar.T, read by lookupVar *)
+      bind_node (tc rng) (fun rn re =>
+        match range_var_type (node_type rn) with
+        | Some (Some vt) => ONode (NLeaf vt) re
+        | Some None => OCrash
+        | None => ONode (NLeaf TNone) true                    (* "expected num, string, array or map after range": LoopVar.T stays NONE_TYPE *)
+        end)
   end.
 
 (* ---------- statement contexts (parser.go) ---------- *)
@@ -837,6 +846,7 @@ Fixpoint dec_expr (x : sx) : option expr :=
       else if sym_is k "neg" then match args with [a] => option_map (EUn UMinus) (dec_expr a) | _ => None end
       else if sym_is k "not" then match args with [a] => option_map (EUn UBang) (dec_expr a) | _ => None end
       else if sym_is k "group" then match args with [a] => option_map EGroup (dec_expr a) | _ => None end
+      else if sym_is k "loopvar" then match args with [a] => option_map ELoopVar (dec_expr a) | _ => None end
       else if sym_is k "index" then
         match args with
         | [l; i] => match dec_expr l, dec_expr i with Some l, Some i => Some (EIndex l i) | _, _ => None end
